@@ -18,7 +18,7 @@ RULE = (
     "every case is evaluated in the NaN and the (values, validity) report format. Oracle per cell, rows by brute "
     "force: stddev = sqrt(sum w (x-mu_w)^2 / sum w * n/(n-1)) (unweighted: ddof=1), missing also for < 2 valid rows; "
     "unweighted quantile by linear interpolation; weighted quantile: missing rule, invariance under w -> c*w "
-    "(c in {0.5, 3}), result within [min, max] of the valid values; min / max exact; covariance = weighted "
+    "(c in {0.5, 3, 2^-40, 2^20}), result within [min, max] of the valid values; min / max exact; covariance = weighted "
     "covariance (numpy.cov aweights formula written out) over complete rows (ignore) or per column pair (propagate); "
     "correlation = covariance normalised. Entries that are mathematically undefined (fewer than 2 usable rows, "
     "zero variance, zero weight sum) are not compared. Both formats must give the same missing set and values and "
@@ -355,7 +355,7 @@ def check(case, rec):
         if ((nv[ok] < lo_v[ok] - tol) | (nv[ok] > hi_v[ok] + tol)).any():
             raise Violation("%s: weighted quantile outside [min, max] of the cell's valid values" % what,
                             sig="weighted quantile out of range")
-        for c in (0.5, 3.0):
+        for c in (0.5, 3.0, 2.0 ** -40, 2.0 ** 20):
             with libcall(what + " with weights scaled by %s" % c):
                 sv, sm = Q.normalise(call(case, dense, shape_arg, "nan", weights_scale=c), "nan", what)
             sv, sm = sv.reshape(want_shape), sm.reshape(want_shape)
